@@ -36,6 +36,17 @@ func genBurnHistory(r *RNG, nBlocks int) []string {
 	for b := 0; b < nBlocks; b++ {
 		now += int64(1+r.Intn(4)) * 1_000_000_000
 		add("BLOCK %d", now)
+		if b == 0 && r.Chance(30) {
+			// before anything has been burned (the burn module account is created at the first burn): a coin for the module
+			// accounts themselves — refused, they are on the bank's blocklist; an ordinary account created at the burn module's
+			// address would make the next burn panic
+			for _, mod := range pick(r, [][]string{{burntypes.ModuleName}, {burntypes.ModuleName, authtypes.FeeCollectorName}, {"mint"}}) {
+				i := r.Intn(4)
+				add("TX %s %s", toks(feeDenom)+":10", hexa(i))
+				add("M bank.Send %s %s %s", toks(addr(i)), toks(authtypes.NewModuleAddress(mod).String()), toks(feeDenom)+":1")
+				add("ENDTX")
+			}
+		}
 		for t := 0; t < r.Intn(4); t++ {
 			i := r.Intn(4)
 			fee := pick(r, []string{"-", toks(feeDenom) + ":10", toks(feeDenom) + ":1000"})
